@@ -308,6 +308,8 @@ func (c *Check) runPhase(p Phase) *phaseResult {
 		if n > p.Runs {
 			n = p.Runs
 		}
+		skipDet := map[uint64]bool{}
+		var skipMu sync.Mutex
 		get := func(env []string) (map[uint64]string, string) {
 			m := map[uint64]string{}
 			args := []string{"worker", "--engine", p.Engine, "--base", fmt.Sprint(c.Seed), "--start", "0", "--stride",
@@ -316,6 +318,11 @@ func (c *Check) runPhase(p Phase) *phaseResult {
 				var rl runLine
 				if json.Unmarshal(line, &rl) == nil && rl.Type == "run" && rl.Out != nil {
 					m[rl.Out.Index] = rl.Out.Canonical()
+					if rl.Out.TimingDependent {
+						skipMu.Lock()
+						skipDet[rl.Out.Index] = true
+						skipMu.Unlock()
+					}
 				}
 			})
 			if err != nil {
@@ -346,6 +353,9 @@ func (c *Check) runPhase(p Phase) *phaseResult {
 		}
 		sort.Slice(keys, func(i, j int) bool { return keys[i] < keys[j] })
 		for _, k := range keys {
+			if skipDet[k] {
+				continue
+			}
 			if bv, ok := b[k]; ok {
 				res.detChecked++
 				if bv != a[k] {
